@@ -36,6 +36,9 @@ var traceMenu = []menuEntry{
 	{"x|cr?nl", "(x|(\r)?\n)", "x\r\na"},
 	{"abbb|b", "(abbb|b)", "abx"},
 	{"byte-semi", ";", ";\n\ra"},
+	{"b{2,}", "b{2,}", "abx"},
+	{"ab{1,2}", "ab{1,2}", "abx"},
+	{"byte-ff", "\xff", "\xffa\xc3"},
 }
 
 // eventWriter is the program's (unbuffered) output: it cuts the bytes written
